@@ -106,6 +106,15 @@ def _cmp_atom(op: ast.cmpop, a: ast.AST, b: ast.AST) -> BF:
         if isinstance(b, (ast.List, ast.Tuple, ast.Set)) and b.elts and all(isinstance(x, (ast.Name, ast.Attribute, ast.Constant)) for x in b.elts):
             # membership in a literal container does not depend on its kind or order: it is the disjunction of the equalities
             return mk_or([_cmp_atom(ast.Eq(), a, x) for x in b.elts])
+        # (u, v) in G.edges / G.edges() / set(G.edges())  is  G.has_edge(u, v)   (DiGraph: the edge view's membership test is has_edge)
+        if isinstance(a, ast.Tuple) and len(a.elts) == 2:
+            e = b
+            if isinstance(e, ast.Call) and isinstance(e.func, ast.Name) and e.func.id in ("set", "frozenset", "list", "tuple") and len(e.args) == 1 and not e.keywords:
+                e = e.args[0]
+            if isinstance(e, ast.Call) and not e.args and not e.keywords:
+                e = e.func
+            if isinstance(e, ast.Attribute) and e.attr == "edges" and isinstance(e.value, (ast.Name, ast.Attribute)):
+                return atom(_expr_text(ast.Call(func=ast.Attribute(value=e.value, attr="has_edge", ctx=ast.Load()), args=list(a.elts), keywords=[])))
         return atom(f"{_expr_text(a)} in {_expr_text(b)}")
     if isinstance(op, ast.Is):
         x, y = _expr_text(a), _expr_text(b)
